@@ -40,6 +40,7 @@ func applyConfig(reg []string, hasHook bool, hook []*Op) {
 		return
 	}
 	cs := compileOps(hook, 0)
+	currentHook = cs
 	redact.RegisterRedactErrorFn(func(err error, p redact.SafePrinter, verb rune) {
 		hookLog = append(hookLog, hookCall{Err: err, Verb: verb})
 		runHookScript(err, p, verb, cs)
@@ -59,6 +60,14 @@ func runHookScript(err error, p redact.SafePrinter, verb rune, ops []*compiled) 
 			p.SafeRune(redact.SafeRune(verb))
 		case "ErrText":
 			p.UnsafeString(safeErrorText(err))
+		case "Cause":
+			// print the cause through the printer, like error libraries do:
+			// the hook is re-entered for it
+			if u, ok := err.(interface{ Unwrap() error }); ok {
+				if cause := safeUnwrap(u); cause != nil {
+					p.Print(cause)
+				}
+			}
 		default:
 			runCompiledOp(t, i, c, 0, nil)
 		}
@@ -72,4 +81,13 @@ func safeErrorText(err error) (s string) {
 		}
 	}()
 	return err.Error()
+}
+
+func safeUnwrap(u interface{ Unwrap() error }) (e error) {
+	defer func() {
+		if recover() != nil {
+			e = nil
+		}
+	}()
+	return u.Unwrap()
 }
